@@ -322,9 +322,9 @@ func Assert(ctx context.Context, args ...object.Object) object.Object {
 		if len(args) == 2 {
 			switch arg := args[1].(type) {
 			case *object.String:
-				return object.Errorf(arg.Value())
+				return object.Errorf("%s", arg.Value())
 			default:
-				return object.Errorf(args[1].Inspect())
+				return object.Errorf("%s", args[1].Inspect())
 			}
 		}
 		return object.Errorf("assertion failed")
@@ -498,7 +498,7 @@ func Sorted(ctx context.Context, args ...object.Object) object.Object {
 			return result.IsTruthy()
 		})
 		if sortErr != nil {
-			return object.TypeErrorf(sortErr.Error())
+			return object.NewError(sortErr)
 		}
 	} else {
 		if err := object.Sort(resultItems); err != nil {
@@ -556,7 +556,7 @@ func Call(ctx context.Context, args ...object.Object) object.Object {
 		}
 		result, err := callFunc(ctx, fn, args[1:])
 		if err != nil {
-			return object.Errorf(err.Error())
+			return object.NewError(err)
 		}
 		return result
 	case object.Callable:
